@@ -373,6 +373,58 @@ class Project(MessageHandler):
         for resource in self.resources:
             resource.prepareScheduling(scIdx)  # type: ignore[attr-defined]
 
+        self._buildSuccessorMap(scIdx)
+
+    def _buildSuccessorMap(self, scIdx: int) -> None:
+        """
+        Who waits for whom, looked up once per scenario instead of once per readiness test.
+
+        Maps id(leaf task) to the leaf tasks that depend on it: through an edge of their own or
+        of an enclosing container, naming the task itself or a container around it (a task
+        inside that container is not its own successor). Backward scheduling asks for the
+        successors of a task again and again; scanning every dependency of every task each
+        time made long chains cubic.
+        """
+        successors: dict[int, list[Any]] = {}
+        for task in self.tasks:
+            if not task.leaf():
+                continue
+            task_scenario = task.data[scIdx] if task.data else None
+            if task_scenario is not None and hasattr(task_scenario, "getAllDependencies"):
+                deps = task_scenario.getAllDependencies()
+            else:
+                deps = task.get("depends", scIdx) or []
+            seen: set[int] = set()
+            for dep in deps:
+                if isinstance(dep, dict):
+                    pred = dep.get("task")
+                elif hasattr(dep, "task"):
+                    pred = dep.task
+                else:
+                    pred = dep
+                if pred is None or not hasattr(pred, "leaf"):
+                    continue
+                if pred.leaf():
+                    targets = [pred]
+                else:
+                    inside = False
+                    up = task.parent
+                    while up is not None:
+                        if up is pred:
+                            inside = True
+                            break
+                        up = up.parent
+                    if inside:
+                        continue
+                    targets = [node for node in pred.all() if node.leaf()]
+                for target in targets:
+                    if id(target) not in seen:
+                        seen.add(id(target))
+                        successors.setdefault(id(target), []).append(task)
+        if not hasattr(self, "_successorMaps"):
+            self._successorMaps: dict[int, dict[int, list[Any]]] = {}
+        self._successorMaps[scIdx] = successors
+
     def _propagateContainerEndDates(self, scIdx: int) -> None:
         """
         Propagate container task end dates to their leaf children as constraints.
@@ -698,38 +750,43 @@ class Project(MessageHandler):
             processed: Set of already processed task IDs
             reverse_deps: Map of task ID -> list of successor tasks
         """
-        task_id = task.fullId if hasattr(task, "fullId") else id(task)
-        if task_id in processed:
-            return
-        processed.add(task_id)
+        # Depth first along the dependencies, without recursion (a chain of a thousand tasks is
+        # deeper than the interpreter's call stack)
+        todo: list[Any] = [task]
+        while todo:
+            current = todo.pop()
+            task_id = current.fullId if hasattr(current, "fullId") else id(current)
+            if task_id in processed:
+                continue
+            processed.add(task_id)
 
-        # Only process leaf tasks
-        if not task.leaf():
-            return
+            # Only process leaf tasks
+            if not current.leaf():
+                continue
 
-        # Check if task is already explicitly ASAP with a fixed start
-        # In that case, don't override
-        forward = task.get("forward", scIdx)
-        start = task.get("start", scIdx)
-        if forward is True and start:
-            # Explicitly ASAP with start date - don't change
-            return
+            # Check if task is already explicitly ASAP with a fixed start
+            # In that case, don't override
+            forward = current.get("forward", scIdx)
+            start = current.get("start", scIdx)
+            if forward is True and start:
+                # Explicitly ASAP with start date - don't change
+                continue
 
-        # Mark as ALAP (forward=False)
-        task[("forward", scIdx)] = False
+            # Mark as ALAP (forward=False)
+            current[("forward", scIdx)] = False
 
-        # Now propagate to predecessors of this task
-        deps = task.get("depends", scIdx) or []
-        for dep in deps:
-            if isinstance(dep, dict):
-                pred = dep.get("task")
-            elif hasattr(dep, "task"):
-                pred = dep.task
-            else:
-                pred = dep
-
-            if pred:
-                self._markTaskALAP(pred, scIdx, processed, reverse_deps)
+            # Now propagate to predecessors of this task
+            preds: list[Any] = []
+            for dep in current.get("depends", scIdx) or []:
+                if isinstance(dep, dict):
+                    pred = dep.get("task")
+                elif hasattr(dep, "task"):
+                    pred = dep.task
+                else:
+                    pred = dep
+                if pred:
+                    preds.append(pred)
+            todo.extend(reversed(preds))
 
     def _extendProjectEndIfNeeded(self) -> None:
         """
